@@ -1,3 +1,4 @@
 -- Root of the `IweModel` library: the executable model (Model/), helper lemmas (Lemmas/)
 -- and the property theorems (Props/), one file per property of /verif/properties.jsonl.
 import IweModel.Props.C15
+import IweModel.Props.C20
